@@ -67,7 +67,7 @@ class C15(Prop):
             s = spec_field(spec, "spec")
             if s.startswith("!"):
                 if impl != "err " + s[1:]:
-                    return "security directory of a mapped view: expected %s, got %s" % (s, impl[:200])
+                    return "security directory of a mapped view / of an image without the data-directory entry: expected %s, got %s" % (s, impl[:200])
                 return None
             m = re.match(r"ok img=\S+ len=\d+ rev=\d+ type=(\d+) data=(\S+)$", impl)
             if not m or "type=%s,data=%s" % (m.group(1), m.group(2)) != s:
